@@ -44,6 +44,9 @@ pub struct History {
     /// for placeholder requests) instead of one of three hashes
     #[serde(default)]
     pub const_apps: bool,
+    /// reference store only: the store does not persist signature counters (records come back with counter None)
+    #[serde(default)]
+    pub no_counters_in_store: bool,
 }
 
 fn app(i: u8) -> [u8; 32] {
@@ -165,6 +168,21 @@ fn run_history<S: CredentialStore<PasskeyItem = Passkey> + Sync + Send>(ctx: &mu
                         match unknown.len() % 4 {
                             0 => vec![],
                             1 if !regs.is_empty() => regs[0].handle.iter().take(regs[0].handle.len() / 2).copied().collect(),
+                            // a rearrangement of a registered handle: two bytes swapped, or the same bit flipped in two places
+                            // (same length, same byte sum / parity -- still a handle nobody registered)
+                            _ if !regs.is_empty() && unknown.first().is_some_and(|b| b % 3 == 0) && regs[0].handle.len() >= 2 => {
+                                let mut hnd = regs[0].handle.clone();
+                                let n = hnd.len();
+                                let (p, q) = (unknown[0] as usize % n, (unknown[0] as usize / 3 + 1 + unknown.len()) % n);
+                                if p != q && hnd[p] != hnd[q] {
+                                    hnd.swap(p, q);
+                                } else {
+                                    let q = if p == q { (p + 1) % n } else { q };
+                                    hnd[p] ^= 0x10;
+                                    hnd[q] ^= 0x10;
+                                }
+                                hnd
+                            }
                             _ => [b"unknown-".as_slice(), unknown].concat(),
                         },
                     ),
@@ -230,6 +248,10 @@ pub fn check_history(ctx: &mut Ctx, h: &History) -> Result<(), String> {
         0 => run_history(ctx, MemoryStore::new(), false, h, None),
         1 => {
             let r = RefStore::new(Disc::Full);
+            if h.no_counters_in_store {
+                r.set_strip_counters(true);
+                ctx.class("store that does not persist counters");
+            }
             run_history(ctx, r.clone(), false, h, Some(r))
         }
         _ => run_history(ctx, None::<Passkey>, true, h, None),
@@ -348,7 +370,8 @@ fn history() -> impl Strategy<Value = History> {
     (0u8..3, proptest::collection::vec(step, 1..10), proptest::bool::weighted(0.25)).prop_map(|(store, steps, no_presence_capability)| {
         // one history in five uses constant-byte application parameters
         let const_apps = steps.len() % 5 == 0;
-        History { store, steps, no_presence_capability, const_apps }
+        let no_counters_in_store = store == 1 && steps.len() % 3 == 1;
+        History { store, steps, no_presence_capability, const_apps, no_counters_in_store }
     })
 }
 
@@ -382,7 +405,7 @@ pub fn run(ctx: &mut Ctx) {
     }
     // every handle length, once
     for len in (0..=255usize).filter(|_| fs) {
-        let h = History { store: (len % 3) as u8, steps: vec![Step::Register { challenge: [len as u8; 32], app: 1, handle: vec![0xA5; len], reuse: None, fault: None }, Step::Authenticate { challenge: [7; 32], known: Some(0), unknown: vec![], wrong_app: false, counter: len as u32, flags: len as u8, p1: len as u8 }], no_presence_capability: false, const_apps: false };
+        let h = History { store: (len % 3) as u8, steps: vec![Step::Register { challenge: [len as u8; 32], app: 1, handle: vec![0xA5; len], reuse: None, fault: None }, Step::Authenticate { challenge: [7; 32], known: Some(0), unknown: vec![], wrong_app: false, counter: len as u32, flags: len as u8, p1: len as u8 }], no_presence_capability: false, const_apps: false, no_counters_in_store: len % 6 == 1 };
         if let Err(e) = check_history(ctx, &h) {
             ctx.violation("handle-lengths", json!(h), &e);
             break;
@@ -395,7 +418,7 @@ pub fn run(ctx: &mut Ctx) {
     }
     // every constant-byte application parameter, once
     for b in (0..=255u8).filter(|_| fs) {
-        let h = History { store: b % 3, steps: vec![Step::Register { challenge: [b ^ 0x5A; 32], app: b, handle: format!("const-app-handle-{b}").into_bytes(), reuse: None, fault: None }, Step::Authenticate { challenge: [9; 32], known: Some(0), unknown: vec![], wrong_app: false, counter: b as u32, flags: 1, p1: 0 }], no_presence_capability: false, const_apps: true };
+        let h = History { store: b % 3, steps: vec![Step::Register { challenge: [b ^ 0x5A; 32], app: b, handle: format!("const-app-handle-{b}").into_bytes(), reuse: None, fault: None }, Step::Authenticate { challenge: [9; 32], known: Some(0), unknown: vec![], wrong_app: false, counter: b as u32, flags: 1, p1: 0 }], no_presence_capability: false, const_apps: true, no_counters_in_store: b % 6 == 1 };
         if let Err(e) = check_history(ctx, &h) {
             ctx.violation("histories", json!(h), &e);
             break;
